@@ -13,6 +13,17 @@ CLAIMED = {
          "note": "Assumes [A] interface contracts: child to_value memoised per line, Matcher.get/set_variable as abstract store view, Qualified.line_matches as the onmatch look-ahead, asbool a function of its argument; AND mode; listed don't-cares unchecked.",
          "tech": TECH},
 }
+CLAIMED.update({
+ "C04": {"text": "Every function that writes or reports the verdict is under contract and proved: Fail/FailAll/Stopper._stop_me invalidate exactly when fired, ErrorHandler._handle_if exactly under 'fail' (symbolic policy and overrides), Matcher.matches/_consider_line are monotone, Failed reports the current verdict, ResultsManager.is_valid / ResultsRegistrar.all_valid / register_complete are the conjunction of the members (unbounded loops with invariants); a frame scan over the whole package proves no writer can set the verdict back to True.",
+         "note": "Assumes [A]: match components as interface objects (vote / fires stop / fails), Result.is_valid as the member verdict, manifest bytes on disk (json.dump) not modelled; explain-mode off.",
+         "tech": TECH + " + syntactic frame scan"},
+ "C05": {"text": "The five observable effects of error handling are postconditions on normal AND exceptional exits of the real ErrorHandler._handle_if for a symbolic policy list and symbolic validation-mode overrides (the 2^6 x 3^4 split is done by the solver); do_i_* and ValidationMode.set_* are proved against override-else-policy; attribute safety turns a missing attribute into a failed no_unexpected_exception obligation; Expression.matches traps everything; Matcher.matches hands trapped errors over on every exit.",
+         "note": "Assumes [A]: CsvPath.print as abstract printer log, ECM policy snapshot equals the passed policy, collector is a CsvPath (Result collector not yet under contract), logging dropped.",
+         "tech": TECH},
+ "C13": {"text": "Matcher.matches is proved against control clauses taken from the property (no component after a halt, skip means no match and does not outlive the line, stop mid-line means no match, stop as final component keeps the fold), CsvPath.next (generator, ghost yield list) against 'no record after the stopping one', _consider_line against the advance and blank-last clauses, Stop/Skip/Advance/Last._decide_match against fires-iff clauses; all loops by invariants, unbounded.",
+         "note": "Assumes [A]: match components / records as interface objects with ghost fields; generator protocol; scanner well-formedness from C02; explain-mode off.",
+         "tech": TECH},
+})
 NA_REASON = {}
 m = {
  "version": 1, "setup_cmd": "./setup.sh",
